@@ -225,6 +225,25 @@ def build_rs(features=()):
     return _built[key]
 
 
+def build_rs_min(features=()):
+    """harness/rs_min: the crate built with default-features = false and no optional feature (and without the hooks' cfg)"""
+    key = ("rs_min",) + tuple(features)
+    if key in _built:
+        return _built[key]
+    d = os.path.join(VERIF, "harness", "rs_min")
+    lock = os.path.join(d, "Cargo.lock")
+    if not os.path.exists(lock):
+        import shutil
+        shutil.copy(os.path.join(REPO, "Cargo.lock"), lock)
+    target = os.path.join(d, "target" if not features else "target-" + "-".join(features))
+    cmd = ["cargo", "build", "--release", "--offline", "--target-dir", target]
+    if features:
+        cmd += ["--features", ",".join(features)]
+    rc, out = run(cmd, cwd=d, timeout=3600)
+    _built[key] = (rc == 0, os.path.join(target, "release", "b3-verif-harness-min"), out)
+    return _built[key]
+
+
 def build_c():
     if "c" in _built:
         return _built["c"]
